@@ -25,7 +25,7 @@
     value position, the [safe_stmts] fragment of DESIGN A.2) and chained comparisons whose last
     operand is lifted; these are covered by the CFG-equality tie and the semantic search only. *)
 From Coq Require Import ZArith List Bool.
-From V.C03 Require Import PyAst PySem Cfg CfgSem Builder Encode Frag Witness ProofsRefute ProofsBase ProofsExpr ProofsBranch ProofsBuild ProofsLoopElse Lift ProofsSim ProofsLiftA ProofsLiftC ProofsLiftE ProofsLBuild.
+From V.C03 Require Import PyAst PySem Cfg CfgSem Builder Encode Frag Witness ProofsRefute ProofsBase ProofsExpr ProofsBranch ProofsBuild ProofsLoopElse Lift ProofsSim ProofsLiftA ProofsLiftC ProofsLiftE ProofsLBuild Unpack GenUnpack ProofsUnpack.
 Import ListNotations.
 
 (* v1 = (v0 + (v0 := 5)): Python adds the old v0, the CFG computes 5 + 5 *)
@@ -292,3 +292,24 @@ Example lifted_chain_in_fragment :
   lsafe_val ex_chain = true /\ lsafe_cond ex_chain = true /\
   lsafe_stmts (one (SAssign (TName (VU 4)) ex_chain)) = true.
 Proof. repeat split; reflexivity. Qed.
+
+(* ---------------------------------------------------------------------------------------- *)
+(* Unpacking assignment `p1..pk, *s, q1..qm = xs` over an array, as lowered by
+   StmtCompiler._assign_array (model Unpack.v; the two reversal decisions of the helper `pop` are read
+   from compiler/stmt_compiler.py on every run into GenUnpack.v): for every element type, every
+   pattern and every array the bindings are exactly Python's - pi = xs[i], qj = xs[n-m+j],
+   s = xs[k:n-m] - and there is no binding exactly when Python raises (wrong number of elements). *)
+Theorem unpack_array_matches_python : forall (A : Type) left starred right (xs : list A),
+  assign_array A gen_rev_pats_right gen_rev_elts_right left starred right xs = py_unpack A left starred right xs.
+Proof.
+  intros A left starred right xs. unfold gen_rev_pats_right, gen_rev_elts_right.
+  destruct (py_unpack A left starred right xs) eqn:E.
+  - rewrite <- E. apply assign_array_python. congruence.
+  - apply assign_array_python_none. exact E.
+Qed.
+Print Assumptions unpack_array_matches_python.
+
+Example unpack_example :
+  assign_array nat gen_rev_pats_right gen_rev_elts_right [0] (Some 9) [1; 2; 3] [10; 11; 12; 13; 14; 15] =
+  Some ([(0, 10); (1, 13); (2, 14); (3, 15)], Some (9, [11; 12])).
+Proof. reflexivity. Qed.
